@@ -36,7 +36,7 @@ MANIFEST_ENTRY = dict(
          'rejects them).  Trusted: TLC, harness/exact.py (own_unitary contraction, argmax / phase-class discretiser), '
          'harness/compile_common.py (input builders, embedding of basis states, tolerance = f(synthesis_epsilon) <= 0.05 while '
          'two different members of the domain are >= 0.13 apart), harness/sim.py + simcompile.py (the deterministic kernel the '
-         'real runtime classes run on).  A case that does not finish within its wall-clock bound is reported as a note, not a verdict.  '
+         'real runtime classes run on).  A case that does not finish within its CPU-time bound is reported as a note, not a verdict.  '
          'Every run ends with an oracle self-test: corrupted copies of accepted observations (column moved, relative phase changed, '
          'outside the budget, mapping out of range / repeated, measurement moved / re-wired / dropped, status raised) must each be '
          'rejected by CompileSem.tla with its clause.',
@@ -88,7 +88,7 @@ def build_cases(ctx: Ctx):
         c['sched'] = rng.randrange(1 << 20)
         c['cseed'] = rng.randrange(1 << 16)
         c['trace'] = False
-        c['timeout'] = 150 if c['level'] <= 2 else 400
+        c['timeout'] = 150 if c['level'] <= 2 else 400        # CPU seconds (see run_cases)
     return cases
 
 
@@ -114,7 +114,7 @@ def run(ctx: Ctx) -> Outcome:
     for c, r in zip(cases, results):
         if r['status'] == 'timeout':
             timeouts += 1
-            out.notes.append('NOTE property=C01 case %s (n=%d level=%d) did not finish within %d s: undecided' % (c.get('id'), c['n'], c['level'], c['timeout']))
+            out.notes.append('NOTE property=C01 case %s (n=%d level=%d) did not finish within %d CPU seconds: undecided' % (c.get('id'), c['n'], c['level'], c['timeout']))
             continue
         if r['status'] == 'harness-error':
             herr += 1
